@@ -3,5 +3,5 @@ CONSTANTS
   Alpha <- FullAlpha
   MaxLen = 3
   MidGuard = FALSE
-INVARIANTS StreamIsDef LenOK RoundTripN FillIsCR ImplAllowed
+INVARIANTS StreamIsDef FastIsDef LenOK RoundTripN FillIsCR ImplAllowed
 CHECK_DEADLOCK FALSE
